@@ -219,6 +219,12 @@ def make_backend(kind, sim, n_workers):
                         callback(out)
                     else:
                         callback()
+            if kind != "stub_noabort" and getattr(self, "_terminated", False):
+                # submitted to a backend that has been terminated (a callback of the failed call that was still inside
+                # dispatch_one_batch): a dead pool never runs it (real pools raise in their own, equally dead, handler
+                # thread)
+                sim.events.append(("submit-to-terminated-backend",))
+                return job
             sim.submit(runner, tag=func)
             return job
 
@@ -235,6 +241,11 @@ def make_backend(kind, sim, n_workers):
 
         def terminate(self):
             self._terminated = True
+            if kind != "stub_noabort":
+                # a terminated pool does not run what was still queued (Pool.terminate(), executor shutdown with
+                # kill_workers): also a submission that slipped in between abort_everything() and terminate()
+                self._epoch += 1
+                sim.drop_pending()
 
         def abort_everything(self, ensure_ready=True):
             sim.sp("abort")
